@@ -392,3 +392,16 @@ Proof.
   split; [repeat constructor; cbn; try reflexivity; discriminate|].
   split; [exact I|]. repeat split; vm_compute; reflexivity.
 Qed.
+
+(* ---- round 7: the model's transport constants and message-ID successor are the translated source's
+   (Gen/c03_constants.v <- numbers/constants.py TransportTuning, microseconds = seconds * 10^6; Gen/c14_message_id.v <- MessageManager._next_message_id) *)
+From Verif Require Gen.c03_constants Gen.c14_message_id.
+From Verif Require Proofs.C09Tie.
+Theorem C09_empty_ack_delay_is_source :
+  QArith_base.Qeq (QArith_base.inject_Z EMPTY_ACK_DELAY) (QArith_base.Qmult (c03_constants.tt_EMPTY_ACK_DELAY c03_constants.default_transport_tuning) (QArith_base.inject_Z 1000000)).
+Proof. exact C09Tie.empty_ack_delay_is_source. Qed.
+Print Assumptions C09_empty_ack_delay_is_source.
+Theorem C09_next_message_id_is_source :
+  forall mid, c14_message_id.next_message_id {| c14_message_id.mmids_message_id := mid |} = Ok ({| c14_message_id.mmids_message_id := Z.land 65535 (1 + mid) |}, mid).
+Proof. exact C09Tie.next_message_id_is_source. Qed.
+Print Assumptions C09_next_message_id_is_source.
